@@ -27,7 +27,10 @@ RULE = ('(a) exhaustive unit vectors: every group/descriptor of the 9 shipped '
         'loader; (e) estimates on a fresh, never-used library object. '
         'Non-trivial = a (library, mapping) whose four properties were '
         'compared at >=1 temperature or whose failure clause was decided; '
-        'distinct by (library, mapping, key form).')
+        'distinct by (library, mapping, key form).'
+        ' Argument forms: mapping keys as str / Group objects / '
+        'defaultdict; counts as Python int / float, numpy int64 / int32 / '
+        'float64, Fraction. ')
 ASSUMPTIONS = [
     'temperatures only inside the estimate\'s reported range (C06 owns the '
     'outside)',
